@@ -11,6 +11,7 @@ type ConfigOpts struct {
 	Dir       string // absolute directory usable for dir: fields and env files
 	NoNumbers bool
 	MaxTasks  int
+	Nulls     bool // values of env / variables maps may be null (YAML and JSON can say that, TOML cannot)
 }
 
 func strOrList(t *rapid.T, label string, items []string) Node {
@@ -29,6 +30,9 @@ var words = []string{"line\n", "two\nlines\n", "\nlead", "alpha", "beta", "x y",
 func word(t *rapid.T, label string) string { return rapid.SampledFrom(words).Draw(t, label) }
 
 func scalarForString(t *rapid.T, label string, o ConfigOpts) Node {
+	if o.Nulls && rapid.IntRange(0, 3).Draw(t, label+"_null") == 0 {
+		return nil
+	}
 	if !o.NoNumbers {
 		switch rapid.IntRange(0, 9).Draw(t, label+"_kind") {
 		case 0:
